@@ -210,6 +210,40 @@ def check(ctx):
         if not ok:
             ctx.violation('C07.R1', m.rel, f, '%s::MembersType.decode' % m.rel, 'member names unknown to this version must be ignored, not rejected', stmt='unknown members')
 
+    # XER: the element of a component is found by its name among all children, wherever it stands: a version-2 document has elements this version does not know between the
+    # ones it knows (additions are inserted at the extension marker, which need not be at the end), and a reader that pairs children with members by position stalls on them.
+    xm = model.mod(RELS['xer'])
+    xmt = xm.classes['MembersType']
+    xf = xmt.methods['decode']
+    ep = [p_ for p_ in flow.param_names(xf) if p_ != 'self'][:1]
+    finds = [c_ for c_ in walk_no_nested(xf) if isinstance(c_, ast.Call) and isinstance(c_.func, ast.Attribute) and c_.func.attr in ('find', 'findall', 'iterfind')
+             and isinstance(c_.func.value, ast.Name) and c_.func.value.id in ep]
+    helpers = [c_ for c_ in walk_no_nested(xf) if isinstance(c_, ast.Call) and isinstance(c_.func, ast.Attribute) and isinstance(c_.func.value, ast.Name) and c_.func.value.id == 'self'
+               and any(isinstance(a_, ast.Name) and a_.id in ep for a_ in c_.args)]
+    verdict, why, at = ('ok', 'element.find(<member name>)', xf) if finds else ('undecided', 'no lookup by name found', xf)
+    for hc in helpers:
+        # every implementation of the helper in MembersType and its subclasses
+        for kc in [xmt] + [k_ for k_ in xm.classes.values() if xmt in k_.mro()[1:]]:
+            g_ = kc.methods.get(hc.func.attr)
+            if g_ is None:
+                continue
+            gp = [p_ for p_ in flow.param_names(g_) if p_ != 'self']
+            idx = [i_ for i_, a_ in enumerate(hc.args) if isinstance(a_, ast.Name) and a_.id in ep][0]
+            el = gp[idx] if idx < len(gp) else None
+            over_children = [n_ for n_ in walk_no_nested(g_) if isinstance(n_, (ast.For, ast.comprehension)) and isinstance(n_.iter, ast.Name) and n_.iter.id == el]
+            positional = [n_ for n_ in walk_no_nested(g_) if isinstance(n_, ast.Call) and isinstance(n_.func, ast.Name) and n_.func.id in ('next', 'iter', 'zip', 'enumerate')
+                          and any(isinstance(a_, ast.Name) and a_.id == el for a_ in ast.walk(n_))] + \
+                         [n_ for n_ in walk_no_nested(g_) if isinstance(n_, ast.Subscript) and isinstance(n_.value, ast.Name) and n_.value.id == el and isinstance(n_.ctx, ast.Load)]
+            if positional:
+                verdict, why, at = 'VIOLATION', '%s pairs the children of the element with the members by position (`%s`)' % (Model.qual(g_), ast.unparse(positional[0])[:50]), positional[0]
+            elif over_children and verdict != 'VIOLATION':
+                verdict, why = 'ok', 'a name-keyed map of all children'
+    ctx.instance('C07.R1', 'xer.MembersType.decode finds each component by name among all children', verdict, why if verdict != 'ok' else '', nontrivial=verdict != 'undecided', node=xf, file=xm.rel)
+    if verdict == 'VIOLATION':
+        ctx.violation('C07.R1', xm.rel, at, '%s::MembersType.decode' % xm.rel,
+                      '%s: an element this version does not know (an extension addition of a newer version, inserted at the extension marker) that stands before a known component stops '
+                      'the pairing, and every following component is decoded as absent' % why, stmt='components paired by position')
+
     # ---- R2 + R5
     for codec in ('per', 'oer'):
         m = model.mod(RELS[codec])
